@@ -1,14 +1,15 @@
 ----------------------------- MODULE MC_Regroup -----------------------------
 (* Model-checking instance for C19.  TLC enumerates every catalogue of      *)
-(* 1..MaxN rows on the W x H lattice (as multisets of lattice points:       *)
-(* duplicate positions included; the row orders are covered by the          *)
-(* permutation theorem), every flux pattern and every linking length class  *)
+(* 1..MaxN rows on the W x H lattice (as multisets of lattice points, i.e.  *)
+(* duplicate positions included, up to DupMaxN rows, as sets above; the row *)
+(* orders are covered by the permutation theorem), every flux pattern and   *)
+(* every linking length class                                               *)
 (* E (= 2 eps^2, odd), groups it with Regroup!Groups, labels it, and checks *)
 (* the theorems of the property on the specification.  Every case is also   *)
 (* emitted (PrintT/ToJson) so that the harness replays exactly this domain  *)
 (* on the real code.                                                        *)
 EXTENDS Regroup, TLC, Json
-CONSTANTS W, H, MaxN, Es, FluxPats
+CONSTANTS W, H, MaxN, DupMaxN, Es, FluxPats
 VARIABLES pts, flux, E, pc, G, isl, src
 
 vars == <<pts, flux, E, pc, G, isl, src>>
@@ -31,7 +32,8 @@ PermsOf == [m \in 1..MaxN |-> Perms(m)]
 \* length in Pick (so that TLC's workers share the enumeration)
 Init == /\ \E m \in 1..MaxN :
               pts \in {s \in [1..m -> 0..(W * H - 1)] :
-                          \A i \in 1..(m - 1) : s[i] <= s[i + 1]}
+                          \A i \in 1..(m - 1) :
+                              s[i] < s[i + 1] \/ (m <= DupMaxN /\ s[i] = s[i + 1])}
         /\ flux = <<>> /\ E = 0
         /\ pc = "pick" /\ G = {} /\ isl = <<>> /\ src = <<>>
 
